@@ -65,4 +65,10 @@ theorem validate_periodic_eq (c : SolverCfg) : Gen.validate_periodic c = validat
 theorem validate_semi_eq (c : SolverCfg) : Gen.validate_semi c = validateSolver .semi c := by
   simp only [Gen.validate_semi, validateSolver, checkCommon, bind_assoc]
 
+/-- **the four problem-configuration validators as written in /repo = the model's** -/
+theorem pvalidate_forest_eq (c : ForestCfgV) : Gen.pvalidate_Forest c = validateForest c := rfl
+theorem pvalidate_demoor_eq (c : DeMoorCfgV) : Gen.pvalidate_DeMoor c = validateDeMoor c := rfl
+theorem pvalidate_hendrix_eq (c : HendrixCfgV) : Gen.pvalidate_Hendrix c = validateHendrix c := rfl
+theorem pvalidate_mirjalili_eq (c : MirjaliliCfgV) : Gen.pvalidate_Mirjalili c = validateMirjalili c := rfl
+
 end MdpaxV.GenTie
